@@ -769,6 +769,9 @@ Fixpoint crun (c : cstate) (sched : list nat) : cstate * list cevent :=
 
 End Concurrent.
 
+(* all threads at the start of their programs, empty vector *)
+Definition cinit_run (progs : list (list creq)) : cstate := mkC (mkM [] 0) (map (mkT false) progs).
+
 (* the sequential specification of a request on the plain map *)
 Definition sreq (s : sworld) (q : creq) : sres * sworld :=
   match q with
